@@ -6,9 +6,14 @@ Local Open Scope N_scope.
 
 Definition VB (s : string) : pv := VBytes (hex s).
 
-Definition case : Type := nat * (nat * (pv * (string * (N * jv)))).
-Definition mkcase (kind m : nat) (v : pv) (hx : string) (sz : N) : case := (kind, (m, (v, (hx, (sz, JNull))))).
-Definition mkcasej (kind m : nat) (v : pv) (j : jv) : case := (kind, (m, (v, (EmptyString, (0, j))))).
+(* a case = kind, message, value, bytes (hex), size, JSON tree, and two further OBSERVATIONS of the
+   implementation (see `obs_back` / `obs_bytes2` below): a second value and a second byte string *)
+Definition case : Type := nat * (nat * (pv * (string * (N * (jv * (pv * string)))))).
+Definition same : string := "="%string.
+Definition mkcase (kind m : nat) (v : pv) (hx : string) (sz : N) : case := (kind, (m, (v, (hx, (sz, (JNull, (VNone, same))))))).
+Definition mkcasej (kind m : nat) (v : pv) (j : jv) : case := (kind, (m, (v, (EmptyString, (0, (j, (VNone, same))))))).
+Definition mkcaseo (kind m : nat) (v : pv) (hx : string) (sz : N) (j : jv) (back : pv) (hx2 : string) : case :=
+  (kind, (m, (v, (hx, (sz, (j, (back, hx2))))))).
 
 Definition otlp_to_json := to_json OtlpSchema.
 Definition otlp_of_json := of_json OtlpSchema OtlpJsonDecoders OtlpEnums.
@@ -35,8 +40,13 @@ Definition opv_eqb (a b : option pv) : bool := option_eqb pv_eqb a b.
      model defines (ids of every length, integers at and beyond their range as numbers and strings,
      floats / booleans / words where integers are expected, unknown enum names, base64 of every
      padding): TWO-SIDED — the implementation accepts iff the model does, with the same value. *)
+(* the JSON fixed point in the model, on every decoded value that is canonical (json_decode_fixpoint_partial
+   needs more: this evaluates its conclusion where its missing lemma would be used) *)
+Definition json_fix (m : nat) (d : pv) : bool :=
+  if canonical OtlpSchema m d then opv_eqb (otlp_of_json m (otlp_to_json m d)) (Some d) else true.
+
 Definition check_case (c : case) : bool :=
-  let '(kind, (m, (v, (hx, (sz, j))))) := c in
+  let '(kind, (m, (v, (hx, (sz, (j, (back, hx2))))))) := c in
   let b := hex hx in
   match kind with
   | O =>
@@ -44,45 +54,110 @@ Definition check_case (c : case) : bool :=
       && (size OtlpSchema m v =? sz) && (blen b =? sz)
       && canonical OtlpSchema m (norm OtlpSchema m v)
       && opv_eqb (decode OtlpSchema m b) (Some (norm OtlpSchema m v))
-  | 1%nat =>   (* generated Unmarshal and ProtoUnmarshaler.UnmarshalX: the path that does not migrate *)
-      match decode_path OtlpSchema PProtoUnmarshaler m b with
+  | 1%nat =>   (* the generated Unmarshal of a message: no migration *)
+      match decode OtlpSchema m b with
       | None => true
       | Some d => pv_eqb v (VSome d) && canonical OtlpSchema m (norm OtlpSchema m d)
       end
-  | 2%nat =>   (* ExportRequest.UnmarshalProto: the path that migrates *)
+  | 2%nat =>   (* ExportRequest.UnmarshalProto *)
       match decode_path OtlpSchema PExportRequestProto m b with
       | None => true
-      | Some d => pv_eqb v (VSome d) && no_deprecated OtlpSchema m d && res_shaped OtlpSchema m d
+      | Some d => pv_eqb v (VSome d) && no_deprecated OtlpSchema m d
+      end
+  | 9%nat =>   (* ProtoUnmarshaler.UnmarshalX *)
+      match decode_path OtlpSchema PProtoUnmarshaler m b with
+      | None => true
+      | Some d => pv_eqb v (VSome d) && no_deprecated OtlpSchema m d
       end
   | 3%nat => true
   | 4%nat => jv_eqb (otlp_to_json m v) j
   | 7%nat =>
-      match decode OtlpSchema m b with
+      match decode_path OtlpSchema PProtoUnmarshaler m b with
       | None => pv_eqb v VNone
       | Some d => pv_eqb v (VSome d)
       end
   | 6%nat =>
       match otlp_of_json m j with
       | None => pv_eqb v VNone
-      | Some d => pv_eqb v (VSome d)
+      | Some d => pv_eqb v (VSome d) && json_fix m d
       end
   | _ =>
       match otlp_of_json m j with
       | None => true
-      | Some d => pv_eqb v (VSome d)
+      | Some d => pv_eqb v (VSome d) && json_fix m d
       end
   end.
 
 (* for replay files: what the model computes for the case's input *)
 Definition model_out (c : case) : (bytes * N) * option pv :=
-  let '(kind, (m, (v, (hx, (sz, j))))) := c in
+  let '(kind, (m, (v, (hx, (sz, (j, (back, hx2))))))) := c in
   match kind with
   | O => ((encode OtlpSchema m v, size OtlpSchema m v), decode OtlpSchema m (encode OtlpSchema m v))
   | 1%nat => (([], 0), decode OtlpSchema m (hex hx))
   | 2%nat => (([], 0), option_map (migrate OtlpSchema m) (decode OtlpSchema m (hex hx)))
-  | 7%nat => (([], 0), decode OtlpSchema m (hex hx))
+  | 7%nat | 9%nat => (([], 0), decode_path OtlpSchema PProtoUnmarshaler m (hex hx))
   | _ => (([], 0), otlp_of_json m j)
   end.
 
 Definition model_json (c : case) : jv :=
-  let '(kind, (m, (v, (hx, (sz, j))))) := c in otlp_to_json m v.
+  let '(kind, (m, (v, (hx, (sz, (j, (back, hx2))))))) := c in otlp_to_json m v.
+
+(* ---------------------------------------------------------------------------------------------
+   the property's clauses evaluated on the OBSERVED behaviour of the implementation alone — no model
+   function (encode / decode / to_json / of_json) occurs below.  Observations of a case:
+     kind 0 (value -> bytes): v the payload, hx = Marshal(v), sz = Size(v),
+        back = what Unmarshal(Marshal v) built  (VNone: a tree identical to v; VSome t: the tree t; anything
+        else: Unmarshal failed),  hx2 = Marshal(Unmarshal(Marshal v))  ("=": identical to hx);
+     kinds 1 2 7 9 (bytes -> value, accepted): v = VSome (decoded tree), hx the input,
+        hx2 = b1 = Marshal(decoded),  back = what happened one round later: VNone: Marshal(Unmarshal(b1)) = b1;
+        VBytes b2: it was b2; anything else: b1 did not decode;
+     kind 4 (value -> JSON): v the payload, hx = Marshal(v), back = UnmarshalJSON(MarshalJSON v) (as for kind 0),
+        hx2 = Marshal(UnmarshalJSON(MarshalJSON v)) ("=": identical to hx). *)
+Definition obs_back (v back : pv) : option pv :=
+  match back with VNone => Some v | VSome t => Some t | _ => None end.
+Definition obs_bytes2 (hx hx2 : string) : bytes := if String.eqb hx2 same then hex hx else hex hx2.
+Definition obs_round2 (b1 : bytes) (back : pv) : option bytes :=
+  match back with VNone => Some b1 | VBytes b2 => Some b2 | _ => None end.
+
+Definition clause_size (c : case) : bool :=
+  let '(kind, (m, (v, (hx, (sz, (j, (back, hx2))))))) := c in
+  match kind with O => blen (hex hx) =? sz | _ => true end.
+Definition clause_roundtrip (c : case) : bool :=
+  let '(kind, (m, (v, (hx, (sz, (j, (back, hx2))))))) := c in
+  match kind with
+  | O | 4%nat => opv_eqb (obs_back v back) (Some v)
+  | _ => true
+  end.
+Definition clause_rebytes (c : case) : bool :=      (* kind 0: re-marshal; kind 4: JSON -> protobuf agreement *)
+  let '(kind, (m, (v, (hx, (sz, (j, (back, hx2))))))) := c in
+  match kind with
+  | O | 4%nat => list_eqb N.eqb (obs_bytes2 hx hx2) (hex hx)
+  | _ => true
+  end.
+Definition clause_fixpoint (c : case) : bool :=
+  let '(kind, (m, (v, (hx, (sz, (j, (back, hx2))))))) := c in
+  match kind, v with
+  | 1%nat, VSome _ | 2%nat, VSome _ | 7%nat, VSome _ | 9%nat, VSome _ =>
+      if String.eqb hx2 same then true   (* no re-encoding was recorded for this case *)
+      else match obs_round2 (hex hx2) back with Some b2 => list_eqb N.eqb b2 (hex hx2) | None => false end
+  | _, _ => true
+  end.
+Definition prop_ok (c : case) : bool := clause_size c && clause_roundtrip c && clause_rebytes c && clause_fixpoint c.
+
+(* the two recorded losses (-0.0 in a singular double, nil bytes in a oneof) are exactly the payloads that
+   are not canonical: there the round trip is demanded up to `norm` (protobuf) resp. not demanded (JSON) *)
+Definition prop_ok_known (c : case) : bool :=
+  let '(kind, (m, (v, (hx, (sz, (j, (back, hx2))))))) := c in
+  match kind with
+  | O => if canonical OtlpSchema m v then prop_ok c
+         else clause_size c && opv_eqb (obs_back v back) (Some (norm OtlpSchema m v)) && clause_rebytes c
+  | 4%nat => if canonical OtlpSchema m v then prop_ok c else true
+  | _ => prop_ok c
+  end.
+
+Definition check_all (c : case) : bool := check_case c && prop_ok_known c.
+
+(* for the search after a disagreement: which part fails?  [model; size; roundtrip; rebytes; fixpoint; known-region] *)
+Definition diag (c : case) : list bool :=
+  let '(kind, (m, (v, (hx, (sz, (j, (back, hx2))))))) := c in
+  [check_case c; clause_size c; clause_roundtrip c; clause_rebytes c; clause_fixpoint c; canonical OtlpSchema m v; prop_ok_known c].
